@@ -139,3 +139,5 @@ func cmdReplay(args []string) int {
 	fmt.Printf("{\"cases\":%d,\"lines\":%d}\n", n, lines)
 	return 0
 }
+
+func init() { commands["replay"] = cmdReplay }
